@@ -589,14 +589,18 @@ func Run(c *vl.Ctx) {
 		runsDone[n] = capped == 0 && verdictsDone[n]
 		dbg(fmt.Sprintf("runs of level %d (%d packs)", n, npacks))
 	}
-	// order of work, cheapest and simplest first: verdicts and executions level by level up
-	// to length 3, then the verdicts of the longer levels, then their executions
+	// order of work, cheapest and simplest first: verdicts up to length 3, their executions,
+	// then the verdicts of the longer levels, then their executions
 	for n := 0; n < nLevels && n <= 3; n++ {
 		verdictLevel(n)
-		runLevel(n)
 	}
 	if nLevels > maxLen+1 { // the few nested-block sequences of the quick tier
 		verdictLevel(nLevels - 1)
+	}
+	for n := 0; n < nLevels && n <= 3; n++ {
+		runLevel(n)
+	}
+	if nLevels > maxLen+1 {
 		runLevel(nLevels - 1)
 	}
 	for n := 4; n <= maxLen; n++ {
